@@ -14,6 +14,7 @@ import (
 // The state-machine side of C07: every attempt to start a run consults the shared counter (also when an
 // earlier attempt of the same environment was cancelled or its tasks failed), the number the run carries is
 // the one the counter returned, and without a number there is no start.
+//
 //verif:entry HarnessEveryStartDrawsANumber unwind=96 conform=12 preempt=0 reach=retry,nonumber stub=github.com/AliceO2Group/Control/common/utils.TimeTrack nosched=github.com/AliceO2Group/Control/core/the.mu
 func HarnessEveryStartDrawsANumber() {
 	rn1, rn2 := vrt.Uint32("rn1"), vrt.Uint32("rn2")
@@ -30,6 +31,8 @@ func HarnessEveryStartDrawsANumber() {
 	}
 	conf := &fenvConf{}
 	conf.rnFails = func() bool { return firstAttempt == 2 && conf.rnCalls == 1 }
+	junk := vrt.Uint32("number.next.to.the.error") // a failed allocation may come with a number (the one a lost CAS tried): it must not be used
+	conf.rnJunk = func() uint32 { return junk }
 	conf.rnNext = func() uint32 {
 		if conf.rnCalls == 1 {
 			return rn1
